@@ -57,7 +57,7 @@ from inscripta.biocantor.location.strand import Strand  # noqa: E402
 from inscripta.biocantor.parent import Parent  # noqa: E402
 from inscripta.biocantor.sequence import Sequence  # noqa: E402
 from inscripta.biocantor.sequence.alphabet import Alphabet  # noqa: E402
-from inscripta.biocantor.util.bed import RGB  # noqa: E402
+from inscripta.biocantor.io.bed.bed import RGB  # noqa: E402
 
 OBJ = (Location, Sequence, PARENT_CLS, AbstractInterval)
 INTERVAL_KINDS = ("cds", "transcript", "feature", "gene", "featcoll", "annot")
@@ -264,6 +264,7 @@ def run_warm(kindmode, seed, who, ops):
     # cold: one fresh operand per operation
     cold_ans = {}
     snap_c = None
+    dp = dg(snap_p)
     for op in ops:
         cold()
         o = recipe.build()
@@ -271,7 +272,7 @@ def run_warm(kindmode, seed, who, ops):
         cold_ans[op] = apply_and_ask(table[op], o, c, counter)
         c.twin                                            # noqa
         s = snapshot(o, c)
-        if snap_c is None or dg(s) != dg(snap_p):
+        if snap_c is None or (dg(s) != dp and dg(snap_c) == dp):
             snap_c = s
     # warm: one operand asked everything first, then all the operations
     cold()
@@ -290,7 +291,7 @@ def run_warm(kindmode, seed, who, ops):
         out.append(f"{op} {a} {b}")
         if a != b and len(detail) < 4:
             detail.append(f"{op}>{_first_diff(warm_ans[op], cold_ans[op])}")
-    dp, dc, dw = dg(snap_p), dg(snap_c), dg(snap_w)
+    dc, dw = dg(snap_c), dg(snap_w)
     out.append(f"snap {dp} {dc} {dw}")
     if dc != dp:
         detail.append("cold-operand:" + _tok(H._short((H.snap_diff(snap_c, snap_p) or ["?"])[0])))
@@ -348,7 +349,7 @@ def _attrs(v):
         for n in getattr(klass, "__slots__", ()) or ():
             try:
                 out[n] = getattr(v, n)
-            except AttributeError:
+            except Exception:  # noqa  (unset slot; a property of the empty location raises)
                 pass
     return out
 
@@ -529,6 +530,8 @@ def arg_table(recipe, obj):
         simple("Parent:ctor", lambda o, c: {"location": o.location, "sequence": o.sequence, "parent": o.parent},
                lambda o, c, a: Parent(id=o.id, sequence_type=o.sequence_type, strand=o.strand, **a))
     if k in INTERVAL_KINDS:
+        simple("to_dict:noarg", lambda o, c: {}, lambda o, c, a: o.to_dict())
+        simple("to_dict:chunk", lambda o, c: {}, lambda o, c, a: o.to_dict(chromosome_relative_coordinates=False))
         simple("from_dict:dict", lambda o, c: {"vals": o.to_dict(), "parent_or_seq_chunk_parent": c.recipe.parent()},
                lambda o, c, a: type(o).from_dict(a["vals"], a["parent_or_seq_chunk_parent"]))
         simple("from_dict:dict:noparent", lambda o, c: {"vals": o.to_dict()}, lambda o, c, a: type(o).from_dict(a["vals"]))
@@ -623,34 +626,67 @@ def run_args(kindmode, seed, call):
     # which legitimately share child objects with the receiver
     res_all = containers(res1, "result", {}, set(), lambda v: True)
     res_plain = containers(res1, "result", {}, set(), lambda v: not isinstance(v, OBJ) or v is res1)
-    alias = []
+    alias = []           # (result path, other path, family)
     for i, (p, _) in sorted(res_all.items(), key=lambda kv: kv[1][0]):
         if i in arg_conts:
-            alias.append(f"{_tok(p)}=={_tok(arg_conts[i][0])}")
-    if not isinstance(res1, OBJ) or res1 is not obj:
-        for i, (p, _) in sorted(res_plain.items(), key=lambda kv: kv[1][0]):
-            if i in self_conts and i not in arg_conts:
-                alias.append(f"{_tok(p)}=={_tok(self_conts[i][0])}")
+            alias.append((p, arg_conts[i][0], _alias_family(call, p, arg_conts[i][0])))
+    for i, (p, _) in sorted(res_plain.items(), key=lambda kv: kv[1][0]):
+        # private state shared between two library objects (result._x is receiver._x) is not observable
+        if i in self_conts and i not in arg_conts and _public(p) and res1 is not obj:
+            alias.append((p, self_conts[i][0], _alias_family(call, p, self_conts[i][0])))
     _, r_second = _call(thunk)
     a_after = deep(args)
     s_after = _receiver_state(obj)
-    out = ["ok", "a", dg(a_before), dg(a_after) if dg(a_after1) == dg(a_before) else dg(a_after1),
-           "s", dg(s_before), dg(s_after), "r", dg(r_first), dg(r_second), dg(r_twin), "alias", str(len(alias))]
-    out += alias[:6]
+    da1 = dg(a_after1)
+    fams = {f for _, _, f in alias}
     detail = []
-    if dg(a_before) != dg(a_after1) or dg(a_before) != dg(a_after):
-        ds = H.diff(a_after1 if dg(a_after1) != dg(a_before) else a_after, a_before)
+    if dg(a_before) != da1 or dg(a_before) != dg(a_after):
+        ds = H.diff(a_after1 if da1 != dg(a_before) else a_after, a_before)
         detail.append("arg:" + _tok(H._short(ds[0])) if ds else "arg:?")
+        fams.add("argument-changed")
     if dg(s_before) != dg(s_after):
         ds = H.diff(s_after, s_before)
         detail.append("self:" + _tok(H._short(ds[0])) if ds else "self:?")
+        fams.add("receiver-changed")
     if dg(r_first) != dg(r_twin):
         detail.append("twin:" + _first_diff(r_first, r_twin))
+        fams.add("result")
     if dg(r_first) != dg(r_second):
         detail.append("second:" + _first_diff(r_second, r_first))
+        fams.add("result")
+    out = ["ok", "fam=" + ("+".join(sorted(fams)) or "-"),
+           "a", dg(a_before), dg(a_after) if da1 == dg(a_before) else da1,
+           "s", dg(s_before), dg(s_after), "r", dg(r_first), dg(r_second), dg(r_twin), "alias", str(len(alias))]
+    out += [f"{_tok(p)}=={_tok(q)}" for p, q, _ in alias[:6]]
     if detail:
         out.append("? " + " ".join(detail))
     return " ".join(out)
+
+
+CTOR_CALLS = ("ctor", "from_dict:dict", "from_dict:dict:noparent")
+KEPT_LISTS = ("_genomic_starts", "_genomic_ends", "frames", "_cds_frames", "transcripts", "feature_intervals",
+              "feature_collections", "genes", "variant_collections")
+
+
+def _public(path):
+    return not any(seg.startswith("_") for part in path.split("/") for seg in part.split(".")[1:])
+
+
+def _alias_family(call, res_path, other_path):
+    """syntactic grouping for findings/C10.json (see `family` in impl_history):
+      ctor-keeps-list      a constructor / from_dict stores the caller's list of starts / ends / frames / children
+      feature-types-alias  an export hands out the receiver's own `feature_types` set under the key `feature_type`
+      other                anything else — never matched by a finding"""
+    last_attr = res_path.split(".")[-1].split("/")[0]
+    if call in CTOR_CALLS and other_path.startswith("arg") and last_attr in KEPT_LISTS and "/" not in res_path.split(".")[-1]:
+        return "ctor-keeps-list"
+    if other_path.startswith("self") and res_path.endswith("/feature_type") and other_path.endswith(".feature_types"):
+        return "feature-types-alias"
+    if call == "to_dict:noarg" and other_path.startswith("self") and other_path.split(".")[-1] in KEPT_LISTS[:2] \
+            and res_path.split("/")[-1] in ("exon_starts", "exon_ends", "cds_starts", "cds_ends", "interval_starts",
+                                            "interval_ends"):
+        return "to-dict-hands-out-list"
+    return "other"
 
 
 # ----------------------------------------------------------------------------------------------
